@@ -144,14 +144,16 @@ func getManyComplete(w *load.World, c *core.Collector) {
 			if call, ok := in.(*ssa.Call); ok {
 				if bi, ok := call.Call.Value.(*ssa.Builtin); ok && bi.Name() == "append" && inLoop(b) {
 					for _, h := range f.Blocks {
+						// a loop header: dominates one of its own predecessors; the innermost one
+						// around the append
 						if h.Dominates(b) && ssax.Reaches(b, h) && h != b {
-							leaves := false
-							for _, s := range h.Succs {
-								if !ssax.Reaches(s, h) {
-									leaves = true
+							back := false
+							for _, p := range h.Preds {
+								if h.Dominates(p) {
+									back = true
 								}
 							}
-							if leaves {
+							if back && (hdr == nil || hdr.Dominates(h)) {
 								hdr = h
 							}
 						}
@@ -377,53 +379,87 @@ func flushWritesLive(w *load.World, c *core.Collector) {
 	}
 	n := 0
 	bad := ""
-	fns := append([]*ssa.Function{f}, f.AnonFuncs...)
-	for _, g := range fns {
-		for _, b := range g.Blocks {
-			for _, in := range b.Instrs {
-				call, ok := in.(*ssa.Call)
-				if !ok {
-					continue
-				}
-				if call.Call.IsInvoke() {
-					if call.Call.Method.Name() != "WriteTo" {
-						continue
+	isWrite := func(call *ssa.Call) bool {
+		if call.Call.IsInvoke() {
+			return call.Call.Method.Name() == "WriteTo"
+		}
+		g := call.Call.StaticCallee()
+		return g != nil && g.Name() == "WriteTo"
+	}
+	var contains func(h *ssa.Function, depth int) bool
+	contains = func(h *ssa.Function, depth int) bool {
+		if h == nil || depth > 2 || !ssax.InModule(h) {
+			return false
+		}
+		for _, g := range append([]*ssa.Function{h}, h.AnonFuncs...) {
+			for _, b := range g.Blocks {
+				for _, in := range b.Instrs {
+					if call, ok := in.(*ssa.Call); ok {
+						if isWrite(call) || (!call.Call.IsInvoke() && contains(call.Call.StaticCallee(), depth+1)) {
+							return true
+						}
 					}
-				} else if g := call.Call.StaticCallee(); g == nil || g.Name() != "WriteTo" {
-					continue
 				}
-				n++
-				live := false
-				for _, bb := range g.Blocks {
-					ifi, ok := bb.Instrs[len(bb.Instrs)-1].(*ssa.If)
+			}
+		}
+		return false
+	}
+	liveAt := func(g *ssa.Function, b *ssa.BasicBlock) bool {
+		for _, bb := range g.Blocks {
+			ifi, ok := bb.Instrs[len(bb.Instrs)-1].(*ssa.If)
+			if !ok {
+				continue
+			}
+			cond, neg := ifi.Cond, false
+			if un, ok := cond.(*ssa.UnOp); ok && un.Op == token.NOT {
+				cond, neg = un.X, true
+			}
+			ld, ok := cond.(*ssa.UnOp)
+			if !ok || ld.Op != token.MUL {
+				continue
+			}
+			if _, ok := elemField(ld.X, "IsDeleted"); !ok {
+				continue
+			}
+			edge := 1
+			if neg {
+				edge = 0
+			}
+			if ssax.OnlyViaEdge(bb, edge, b) {
+				return true
+			}
+		}
+		return false
+	}
+	// the write may sit in a helper of Flush: the deleted mark is then tested either around the
+	// helper's call or around the write inside it
+	var check func(h *ssa.Function, depth int)
+	check = func(h *ssa.Function, depth int) {
+		for _, g := range append([]*ssa.Function{h}, h.AnonFuncs...) {
+			for _, b := range g.Blocks {
+				for _, in := range b.Instrs {
+					call, ok := in.(*ssa.Call)
 					if !ok {
 						continue
 					}
-					cond, neg := ifi.Cond, false
-					if un, ok := cond.(*ssa.UnOp); ok && un.Op == token.NOT {
-						cond, neg = un.X, true
+					switch {
+					case isWrite(call):
+						n++
+						if !liveAt(g, b) {
+							bad = w.At(in)
+						}
+					case !call.Call.IsInvoke() && contains(call.Call.StaticCallee(), depth+1):
+						if liveAt(g, b) {
+							n++
+						} else {
+							check(call.Call.StaticCallee(), depth+1)
+						}
 					}
-					ld, ok := cond.(*ssa.UnOp)
-					if !ok || ld.Op != token.MUL {
-						continue
-					}
-					if _, ok := elemField(ld.X, "IsDeleted"); !ok {
-						continue
-					}
-					edge := 1
-					if neg {
-						edge = 0
-					}
-					if ssax.OnlyViaEdge(bb, edge, b) {
-						live = true
-					}
-				}
-				if !live {
-					bad = w.At(in)
 				}
 			}
 		}
 	}
+	check(f, 0)
 	switch {
 	case n == 0:
 		c.Add("ITEMFLAGS", "flush-writes-live", core.Undecided, w.Position(f.Pos()), "no WriteTo call found in ItemCache.Flush", props...)
@@ -1305,25 +1341,58 @@ func sizeFromLen(w *load.World, c *core.Collector) {
 func neighboursReadAfterLoad(w *load.World, c *core.Collector) {
 	props := []string{"C08", "C03", "C10"}
 	n := 0
+	isNodeMethod := func(f *ssa.Function) bool {
+		return f.Signature.Recv() != nil && strings.HasSuffix(ssax.TypeName(f.Signature.Recv().Type()), "graphNode")
+	}
+	// a method of the node that hands the receiver's list to a function it was given (a "with the
+	// neighbours, under the lock" accessor): its call is a read of that node's list
+	accessor := map[*ssa.Function]bool{}
+	for _, f := range w.Fns {
+		if load.PkgPath(f) != load.Mod+"/shard/index/vamana" || !isNodeMethod(f) || len(f.Params) < 2 {
+			continue
+		}
+		for _, b := range f.Blocks {
+			for _, in := range b.Instrs {
+				call, ok := in.(*ssa.Call)
+				if !ok || call.Call.IsInvoke() {
+					continue
+				}
+				if p, ok := call.Call.Value.(*ssa.Parameter); !ok || p.Parent() != f {
+					continue
+				}
+				for _, a := range call.Call.Args {
+					if ld, ok := a.(*ssa.UnOp); ok && ld.Op == token.MUL {
+						if fa, ok := ld.X.(*ssa.FieldAddr); ok && fieldOf(fa) == "vamana.graphNode.neighbours" && fa.X == f.Params[0] {
+							accessor[f] = true
+						}
+					}
+				}
+			}
+		}
+	}
 	for _, f := range w.Fns {
 		if load.PkgPath(f) != load.Mod+"/shard/index/vamana" || f.Synthetic != "" {
 			continue
 		}
-		if f.Signature.Recv() != nil && strings.HasSuffix(ssax.TypeName(f.Signature.Recv().Type()), "graphNode") {
+		if isNodeMethod(f) {
 			continue
 		}
 		bad := ""
 		cnt := 0
 		for _, b := range f.Blocks {
 			for _, in := range b.Instrs {
-				ld, ok := in.(*ssa.UnOp)
-				if !ok || ld.Op != token.MUL {
+				var node ssa.Value
+				if ld, ok := in.(*ssa.UnOp); ok && ld.Op == token.MUL {
+					if fa, ok := ld.X.(*ssa.FieldAddr); ok && fieldOf(fa) == "vamana.graphNode.neighbours" {
+						node = fa.X
+					}
+				} else if call, ok := in.(*ssa.Call); ok && !call.Call.IsInvoke() && accessor[call.Call.StaticCallee()] && len(call.Call.Args) > 0 {
+					node = call.Call.Args[0]
+				}
+				if node == nil {
 					continue
 				}
-				fa, ok := ld.X.(*ssa.FieldAddr)
-				if !ok || fieldOf(fa) != "vamana.graphNode.neighbours" {
-					continue
-				}
+				fa := struct{ X ssa.Value }{node}
 				cnt++
 				np, fresh := ssax.Path(fa.X)
 				if fresh {
